@@ -145,8 +145,29 @@ def analyse(rep, prog, name, full):
     rep.check("WEIGHTS.uniform", ok, fwhere(f), "weights = rng.uniform(low=w_min, high=w_max, size=p x p)",
               "weights are drawn as uniform(low=%s, high=%s, size=%s)" % tuple(fmt(slots.get(k, ("const", None))) for k in ("low", "high", "size")))
     # mask = triu(., k >= 1)
+    if mask[0] == "after" and mask[1] in S.loopinfo:
+        # the same mask written as a loop: A = zeros((p, p)); for i in range(p): A[i, i+1:] = 1  (row i gets the columns j > i)
+        li_ = S.loopinfo[mask[1]]
+        nm_ = mask[2]
+        i_ = ("elem", li_["iter"])
+        init_ = li_["init"].get(nm_)
+        sts = [x for x in S.select("store", qname=f.qname) if mask[1] in x.loops]
+        rng_ok = li_["iter"][0] == "ext" and li_["iter"][1] == "range" and len(li_["iter"][2]) == 1 and \
+            li_["iter"][2][0] in (("param", "p"), ("ext", "len", (init_,), ()), ("ext", "len", (("mu", mask[1], nm_),), ()))
+        zero_ok = init_ is not None and init_[0] == "ext" and init_[1] == "numpy.zeros" and init_[2] and init_[2][0] in (PP,)
+        st_ok = len(sts) == 1 and sts[0].base == ("mu", mask[1], nm_) and is_const(sts[0].value, 1) and sts[0].aug is None and \
+            sts[0].idx == ("tuple", (i_, ("slice", ("binop", "+", i_, ("const", 1)), ("const", None), ("const", None))))
+        if rng_ok and zero_ok and st_ok:
+            rep.ok("TRIU.strict", fwhere(f, li_["node"]), "row i of the zero matrix gets ones in the columns j > i: the strict upper triangle")
+            rep.ok("MASK.full", fwhere(f, li_["node"]), "every entry above the diagonal is an edge")
+        else:
+            rep.unk("TRIU.strict", fwhere(f, li_["node"]), "the edge mask is built by a loop that is not read as the strict upper triangle")
+        return
     if not (mask[0] == "ext" and mask[1] == "numpy.triu" and mask[2]):
-        rep.bad("TRIU.strict", fwhere(f), "edge mask is not np.triu(...): %s" % fmt(mask)[:80])
+        if mask[0] == "ext" and mask[1] in ("numpy.tril", "numpy.ones", "numpy.eye", "numpy.ones_like"):
+            rep.bad("TRIU.strict", fwhere(f), "edge mask is not np.triu(...): %s" % fmt(mask)[:80])
+        else:
+            rep.unk("TRIU.strict", fwhere(f), "the edge mask %s is not written with np.triu: not read" % fmt(mask)[:80])
         return
     b2, extra = api.bind_slots(api.SLOTS["numpy.triu"], list(mask[2]), dict(mask[3]))
     kk = b2.get("k")
